@@ -640,12 +640,17 @@ class XsdElement(XsdComponent, ParticleMixin,
             else:
                 context.identities[identity] = identity.get_counter(obj)
 
-            if isinstance(identity, XsdKeyref) and identity.refer not in context.identities \
-                    and isinstance(identity.refer, XsdIdentity):
+            if isinstance(identity, XsdKeyref) and isinstance(identity.refer, XsdIdentity):
                 # The referred key can be defined on a descendant that may be
-                # missing in the instance: provide a disabled empty table for it.
-                context.identities[identity.refer] = identity.refer.get_counter(obj)
-                context.identities[identity.refer].enabled = False
+                # missing in the instance: provide a disabled empty table for it
+                # and don't reuse the table left by a previous scope instance.
+                if identity.refer not in context.identities:
+                    context.identities[identity.refer] = identity.refer.get_counter(obj)
+                    context.identities[identity.refer].enabled = False
+                elif not context.identities[identity.refer].enabled and \
+                        identity.refer not in self.identities:
+                    context.identities[identity.refer].reset(obj)
+                    context.identities[identity.refer].enabled = False
 
         if not context.level:
             # Need to set converter context with the right object (the resource can be lazy)
